@@ -107,8 +107,8 @@ def DelaysOk (s : State) : Prop := ∀ r ∈ s.reruns, DelayOk r
 
 /-- **Every output of an iteration has a cause** (`Client.Origin`): an event goes to the channel of
     a browse or hostname search of the state, of a queued re-run, or of a command of this
-    iteration; a PTR question is asked for a browsed type, a queued browse retransmission or a
-    `browse` command; A + AAAA for a hostname search that is open, for a follow-up or for a
+    iteration; a PTR question is asked for a type that is browsed and not cache-only (since the
+    repair of D23), a queued browse retransmission or a `browse` command; A + AAAA for a hostname search that is open, for a follow-up or for a
     browsed service; a single A / AAAA question for an open hostname search; and so on.  (The
     classes of queued re-runs are those queued when the re-run phase starts.) -/
 theorem every_output_has_a_cause (s : State) (now : Nat) (pkts : List Packet) (cmds : List Command) :
@@ -496,6 +496,97 @@ theorem no_host_query_after_stop (key : BList) : ∀ (h : List (Nat × List Pack
       exact he.2 ▸ h1 o' ho
     · exact h5 t o hm
 
+/-! #### a cache-only browse causes no query (the statement D23 violated) -/
+
+/-- **No PTR query for a cache-only type, one iteration - every state, every input.**  Take ANY
+    state in which `ty` is browsed cache-only with no browse retransmission queued
+    (`CacheOnlyQuiet`, as `browse_cache(ty)` leaves it: `browse_cache_quiet`) and ANY iteration -
+    whenever it runs, whatever datagrams it reads (records of the type reaching their 80-95 %
+    refresh marks included: the defect D23), whatever other searches are started, stopped or
+    time out - whose commands neither browse nor stop `ty`: it asks no `[(ty, PTR)]`, and `ty`
+    is as quiet afterwards. -/
+theorem cache_only_iteration_quiet (ty : BList) (s : State) (now : Nat) (pkts : List Packet) (cmds : List Command)
+    (hf : CacheOnlyQuiet ty s) (hD : DelaysOk s) (hc : ∀ ch co, Command.browse ty ch co ∉ cmds)
+    (hs : Command.stopBrowse ty ∉ cmds) :
+    (∀ known, Out.query [(ty, 12)] known ∉ (iter s now pkts cmds).2) ∧ CacheOnlyQuiet ty (iter s now pkts cmds).1 ∧
+    DelaysOk (iter s now pkts cmds).1 :=
+  cacheOnlyQuiet_iter ty s now pkts cmds hf hD hc hs
+
+/-- **No PTR query for a type that is browsed cache-only**, in any later history: until
+    `browse(ty)`, `browse_cache(ty)` or `stop_browse(ty)` is called, no iteration asks `[(ty, PTR)]`.
+    (After a `browse_cache(ty)` the statement starts over - `browse_cache_quiet` -, after a
+    `stop_browse(ty)` `no_ptr_query_after_stop` takes over.) -/
+theorem no_ptr_query_while_cache_only (ty : BList) : ∀ (h : List (Nat × List Packet × List Command)) (s : State),
+    CacheOnlyQuiet ty s → DelaysOk s →
+    (∀ it ∈ h, (∀ ch co, Command.browse ty ch co ∉ it.2.2) ∧ Command.stopBrowse ty ∉ it.2.2) →
+    (∀ t known, (t, Out.query [(ty, 12)] known) ∉ (run s h).2) ∧ CacheOnlyQuiet ty (run s h).1 ∧ DelaysOk (run s h).1
+  | [], s, hf, hD, _ => ⟨fun _ _ hm => (by cases hm), hf, hD⟩
+  | (now, pkts, cmds) :: rest, s, hf, hD, hc => by
+    have hc0 := hc _ List.mem_cons_self
+    obtain ⟨h1, h2, h3⟩ := cacheOnlyQuiet_iter ty s now pkts cmds hf hD hc0.1 hc0.2
+    obtain ⟨h4, h5, h6⟩ := no_ptr_query_while_cache_only ty rest _ h2 h3 (fun it hit => hc it (List.mem_cons_of_mem _ hit))
+    simp only [run]
+    refine ⟨?_, h5, h6⟩
+    intro t known hm
+    rcases List.mem_append.mp hm with hm | hm
+    · obtain ⟨o, ho, he⟩ := List.mem_map.mp hm
+      cases he
+      exact h1 known ho
+    · exact h4 t known hm
+
+/-- **`browse_cache(ty)`** in any state, anywhere among the commands of an iteration (no `browse` /
+    `stop_browse` of `ty` after it in that iteration): the command itself emits events on its
+    channel only - no query -, the rest of the iteration asks no PTR question for `ty`, and at
+    the end of the iteration `ty` is cache-only with nothing queued for it - also when `ty` was
+    browsed with `browse` before: the new search replaces the old one and its retransmission. -/
+theorem browse_cache_quiet (ty : BList) (ch : Nat) (s : State) (now : Nat) (pkts : List Packet) (pre post : List Command)
+    (hD : DelaysOk s) (hpost : ∀ ch' co, Command.browse ty ch' co ∉ post) (hstop : Command.stopBrowse ty ∉ post) :
+    (∀ o ∈ (execCommand (runCommands (preCommands s now pkts) now pre).1 now (.browse ty ch true)).2,
+      ∃ e, o = Out.event ch e) ∧
+    (∀ known, Out.query [(ty, 12)] known ∉
+      tailOuts (execCommand (runCommands (preCommands s now pkts) now pre).1 now (.browse ty ch true)).1 now post) ∧
+    CacheOnlyQuiet ty (iter s now pkts (pre ++ .browse ty ch true :: post)).1 ∧
+    DelaysOk (iter s now pkts (pre ++ .browse ty ch true :: post)).1 := by
+  have hing := step_ingress (now := now) (cmds := []) (KeyOK := fun k => k = none) (OK := fun _ => True) rfl pkts s
+    (fun _ _ => trivial)
+  have hD1 : DelaysOk (preCommands s now pkts) := fun r hr => delayOk_of_step hing hD r hr
+  have hst := step_runCommands (now := now) (cmds := pre) (KeyOK := fun _ => True) (OK := fun _ => True) trivial pre
+    (preCommands s now pkts) (fun _ h => h) (fun _ _ _ _ => trivial) (fun _ _ => trivial)
+  have hD2 := delayOk_of_step hst hD1
+  obtain ⟨s1, s2, s3⟩ := browseCache_spec (runCommands (preCommands s now pkts) now pre).1 now ty ch
+  have hD3 : DelaysOk (execCommand (runCommands (preCommands s now pkts) now pre).1 now (.browse ty ch true)).1 := by
+    intro r hr
+    rcases s3 r hr with h | h
+    · exact hD2 r h
+    · exact h
+  obtain ⟨t1, t2, t3⟩ := cacheOnlyQuiet_tail ty _ now post s2 hD3 hpost hstop
+  rw [(iter_split s now pkts pre (.browse ty ch true) post).1]
+  exact ⟨s1, t1, t2, t3⟩
+
+/-- **The refresh works for actively browsed types only - every state.**  Every query that
+    `refresh_active_services` sends at `now` is one of the refresh queries of ONE type
+    (`refreshType`: the PTR question for the type, the SRV / TXT questions for instances with a
+    PTR under it, A + AAAA for the hosts of those instances) - a type that is browsed and NOT
+    cache-only.  Before the repair of D23 every browsed type had its refresh queries, the
+    cache-only ones included. -/
+theorem refresh_only_for_active (s : State) (now : Nat) (o : Out) (ho : o ∈ (refreshActive s now).2) :
+    ∃ ty c, (∃ q ∈ s.queriers, q.1 = ty) ∧ ty ∉ s.cacheOnly ∧ o ∈ (refreshType c now ty).2.1 := by
+  obtain ⟨ty, hty, c, hc⟩ := mem_refreshTypes now o _ _ ho
+  obtain ⟨h1, h2⟩ := (mem_activeTypes s ty).mp hty
+  exact ⟨ty, c, h2, h1, hc⟩
+
+/-- ... so a daemon whose browses are all cache-only sends NOTHING in the refresh phase - no PTR
+    question for a type, no SRV / TXT question for an instance, no A / AAAA question for a host -
+    and leaves the refresh marks of the cache alone -/
+theorem cache_only_refresh_silent (s : State) (now : Nat) (h : ∀ q ∈ s.queriers, q.1 ∈ s.cacheOnly) :
+    (refreshActive s now).2 = [] ∧ (refreshActive s now).1 = s := by
+  have ha : activeTypes s = [] := by
+    simp only [activeTypes, List.filter_eq_nil_iff, List.mem_map, Bool.not_eq_true', Bool.not_eq_false,
+      List.contains_eq_mem, decide_eq_true_eq]
+    rintro ty ⟨q, hq, rfl⟩
+    exact h q hq
+  simp only [refreshActive, ha, refreshTypes, List.eraseDups_nil, addTimers, List.nil_append, and_self]
+
 /-- the delays are fine after every history from the start of the daemon -/
 theorem delays_ok_run (t0 : Nat) (intfs : List Intf) (h : List (Nat × List Packet × List Command)) :
     DelaysOk (run (init t0 intfs) h).1 := by
@@ -807,6 +898,54 @@ example :
           | .event 7 _ => some (o.1, 0)
           | _ => none : Option (Nat × Nat))) =
       [(1000, 1), (2000, 1), (4000, 1), (4500, 3), (4500, 4)] := by decide
+
+/-- the witness of D23 in small: `browse_cache` at 1000, the announcement (TTL 120 s) arrives
+    unsolicited at 1500 and is reported; its records reach the 80 % mark at 97500 and the 85 %
+    mark at 103500: the daemon sends no query at all in the whole history (before the repair:
+    PTR, SRV + TXT and A + AAAA refresh queries at both marks) -/
+example :
+    ((run (init 1000 [C03.eth0])
+        [(1000, [], [.browse C03.ty 1 true]), (1500, [C03.announce], []), (50000, [], []), (97500, [], []),
+         (103500, [], [])]).2.filterMap
+        fun o => (match o.2 with
+          | .query qs _ => some (o.1, qs.map (·.2))
+          | .event 1 (.found ..) => some (o.1, [0])
+          | _ => none : Option (Nat × List Nat))) =
+      [(1500, [0])] := by decide
+
+/-- the same history with `browse`: the query at 1000, its retransmission (due since 2000) at
+    50000, and at the 80 % mark the retransmission and the PTR, SRV + TXT and A + AAAA refresh -/
+example :
+    ((run (init 1000 [C03.eth0])
+        [(1000, [], [.browse C03.ty 1 false]), (1500, [C03.announce], []), (50000, [], []), (97500, [], [])]).2.filterMap
+        fun o => (match o.2 with
+          | .query qs _ => some (o.1, qs.map (·.2))
+          | _ => none : Option (Nat × List Nat))) =
+      [(1000, [12]), (50000, [12]), (97500, [12]), (97500, [12]), (97500, [33, 16]), (97500, [1, 28])] := by decide
+
+/-- the last call decides: `browse` after `browse_cache` makes the type active (queries from
+    50000 on), `browse_cache` after `browse` ends the queries (only the one at 1000) -/
+example :
+    ((run (init 1000 [C03.eth0])
+        [(1000, [], [.browse C03.ty 1 true]), (1500, [C03.announce], []), (50000, [], [.browse C03.ty 2 false]),
+         (97500, [], [])]).2.filterMap
+        fun o => (match o.2 with
+          | .query qs _ => some (o.1, qs.map (·.2))
+          | _ => none : Option (Nat × List Nat))) =
+      [(50000, [12]), (97500, [12]), (97500, [12]), (97500, [33, 16]), (97500, [1, 28])] ∧
+    ((run (init 1000 [C03.eth0])
+        [(1000, [], [.browse C03.ty 1 false]), (1500, [C03.announce], []), (50000, [], [.browse C03.ty 2 true]),
+         (97500, [], []), (103500, [], [])]).2.filterMap
+        fun o => (match o.2 with
+          | .query qs _ => some (o.1, qs.map (·.2))
+          | _ => none : Option (Nat × List Nat))) =
+      [(1000, [12])] := by decide
+
+/-- `CacheOnlyQuiet` is what `browse_cache` leaves from the fresh daemon (the hypothesis of
+    `no_ptr_query_while_cache_only` is satisfiable) -/
+example : CacheOnlyQuiet C03.ty (run (init 1000 [C03.eth0]) [(1000, [], [.browse C03.ty 1 true])]).1 :=
+  (browse_cache_quiet C03.ty 1 (init 1000 [C03.eth0]) 1000 [] [] [] (fun _ hr => by cases hr)
+    (fun _ _ h => by cases h) (fun h => by cases h)).2.2.1
 
 end ClientModel
 
